@@ -56,6 +56,11 @@ def faults_for(case):
     if kind in ("MS", "SS", "DC"):
         # two stages cloned from a template with a parameter; only one clone (or only the template) gets a value
         out += [{"fault": "missing_value_clone", "which": w} for w in ("second", "first", "template_only_ok")]
+    if kind in ("MS", "SS", "DC"):
+        # a constraint on the (method-less) master that depends on the master's time: it cannot be placed
+        out += [{"fault": "master_path_constraint"}]
+    if kind == "Spline":
+        out += [{"fault": "roots_shooting"}]
     if kind in ("MS", "SS"):
         out += [{"fault": "alg_explicit"}, {"fault": "roots_shooting"}, {"fault": "alg_eq_no_var"}]
     if kind == "Spline":
@@ -84,7 +89,7 @@ def ispec_coq(case, f):
         b([False] if fl in ("set_value_nonparam", "set_value_variable") else []),
         b([False] if fl in ("set_initial_param", "set_initial_unknown") else []),
         b([True] + ([False] if fl in ("bad_grid_constraint", "bad_grid_sample", "bad_grid_integral", "bad_grid_sum",
-                                       "bad_grid_variable", "bad_grid_parameter") else [])),
+                                       "bad_grid_variable", "bad_grid_parameter", "master_path_constraint") else [])),
         b([True] + ([False] if fl in ("foreign_symbol_constraint", "foreign_symbol_ode") else [])),
         b([True] + ([False] if fl in ("constant_false", "horizon_false_T", "horizon_false_tf", "horizon_false_t") else [])),
         nalg, "true" if kind in ("MS", "SS") else "false",
@@ -130,6 +135,20 @@ def worker(args):
                     c["ode"][1] = ["+", ["s", "u", 0], ["s", "t"]]
                 c["_fault"] = f
                 out["phase"] = "declaration"
+                if fl == "master_path_constraint":
+                    ocp = rockit.Ocp(t0=0, T=1)
+                    st = ocp.stage(t0=0, T=1)
+                    x_ = st.state(); u_ = st.control()
+                    st.set_der(x_, u_)
+                    st.add_objective(st.integral(u_ ** 2) - st.at_tf(x_))
+                    st.subject_to(st.at_t0(x_) == 0)
+                    st.method(CS.make_method(dict(c["method"], grid={"class": "Uniform"}), rockit, c))
+                    ocp.subject_to(st.at_tf(x_) <= 3 - ocp.t)
+                    ocp.solver("ipopt", {"ipopt.print_level": 0, "print_time": False})
+                    out["phase"] = "solve"
+                    ocp.solve()
+                    out["raised"] = False
+                    raise Reached()
                 if fl == "missing_value_clone":
                     ocp = rockit.Ocp()
                     tpl = rockit.Stage(T=1)
